@@ -204,6 +204,10 @@ func Parse(input string) (Version, error) {
 }
 
 func parseInto(result *Version, input string) error {
+	/* the parts that are absent from the input must not survive from
+	 * whatever the receiver held before */
+	*result = Version{}
+
 	trimmed := strings.TrimSpace(input)
 	if trimmed == "" {
 		return fmt.Errorf("version string is empty")
